@@ -16,6 +16,14 @@ template class amc::vec::VectorImpl<ElemNR, amc::allocator<ElemNR>, uint32_t, fa
 template class amc::Vector<ElemNR, amc::allocator<ElemNR>, uint32_t, DynamicGrowingPolicy, 0>;
 template class amc::FlatSet<ElemNR, GhostCmp>;
 
+// same set over a vector with an 8-bit size_type (small words: the quick tier)
+using Vec8 = amc::vector<ElemNR, amc::allocator<ElemNR>, uint8_t>;
+template class amc::vec::StdVectorBase<ElemNR, amc::allocator<ElemNR>, uint8_t>;
+template class amc::vec::DynamicVector<ElemNR, amc::allocator<ElemNR>, uint8_t, false>;
+template class amc::vec::VectorImpl<ElemNR, amc::allocator<ElemNR>, uint8_t, false, DynamicGrowingPolicy>;
+template class amc::Vector<ElemNR, amc::allocator<ElemNR>, uint8_t, DynamicGrowingPolicy, 0>;
+template class amc::FlatSet<ElemNR, GhostCmp, amc::allocator<ElemNR>, Vec8>;
+
 using FS = amc::FlatSet<ElemNR, GhostCmp>;
 void use_flatset(FS &s, FS &o, const ElemNR &e, ElemNR &&r, const ElemNR *f, const ElemNR *l, FS::node_type &&nh, amc::FlatSet<ElemNR, GhostCmp2> &o2) {
   s.insert(f, l);
